@@ -121,6 +121,18 @@ def correspondence(scn, res, projections):
                 line = line[:-2] if line.endswith(b"\r\n") else line
                 pw.append((l["secured"], canon_line(line)))
         if mw != pw:
+            # a client that closes with replies still unread resets the connection: its QUIT may be lost with the reset
+            lossy = sum(1 for log in res["peer"] if log.get("connected") and log.get("ctl_eof") != "clean")
+            quits = [i for i, (sec, l) in enumerate(mw) if l == b"QUIT"]
+            import itertools
+            for r in range(1, min(lossy, len(quits)) + 1):
+                for drop in itertools.combinations(quits, r):
+                    if [x for i, x in enumerate(mw) if i not in drop] == pw:
+                        mw = pw
+                        break
+                if mw == pw:
+                    break
+        if mw != pw:
             k = 0
             while k < min(len(mw), len(pw)) and mw[k] == pw[k]:
                 k += 1
@@ -768,7 +780,8 @@ def fam_tls(rng, n, dist):
 def fam_reconnect(rng, n, dist, tls_share=0.4):
     """connect / operations / end of session / connect again: the next session must start clean"""
     out = []
-    endings = ["quit", "drop", "421", "peer-close", "leftover", "failed-handshake", "mid-transfer-failure", "peer-reset"]
+    endings = ["quit", "drop", "421", "peer-close", "leftover", "failed-handshake", "mid-transfer-failure", "peer-reset",
+               "421-then-connect", "connect-over", "421-multiline"]
     for i in range(n):
         tls = rng.random() < tls_share
         ending = endings[i % len(endings)]
@@ -792,8 +805,16 @@ def fam_reconnect(rng, n, dist, tls_share=0.4):
             elif ending == "drop":
                 b.disconnect(False)
             elif ending == "421":
-                b.simple(b"NOOP", None, 421)
+                b.simple(b"NOOP", None, 421, multi=rng.random() < 0.3)
                 b.disconnect(False)
+            elif ending == "421-multiline":
+                b.simple(b"NOOP", None, 421, multi=True)
+                if rng.random() < 0.5:
+                    b.disconnect(False)
+            elif ending == "421-then-connect":
+                b.simple(b"NOOP", None, 421)           # the library has closed by itself: the caller connects again at once
+            elif ending == "connect-over":
+                pass                                   # connect() on a client that is still connected
             elif ending == "peer-close":
                 b.simple(b"NOOP", None, 200, close_after=True)
                 b.failing(("S", b"PWD", None), cmds=[], cmds_may_be_lost=True)
@@ -834,13 +855,17 @@ def fam_reuse(rng, n, dist):
         b.connect(login=(b"u", b"p"))
         for _ in range(rng.randrange(1, 6)):
             add_transfer(b, rng, dist, kind=rng.choice(["D", "U", "F"]))
-        ending = rng.choice(["quit", "421", "quit"])
+        ending = rng.choice(["quit", "421", "quit", "421-then-connect", "connect-over"])
         if ending == "421":
             b.simple(b"NOOP", None, 421)
             b.disconnect(False)
+        elif ending == "421-then-connect":
+            b.simple(b"NOOP", None, 421)
+        elif ending == "connect-over":
+            pass
         else:
             b.disconnect(True)
-        if rng.random() < 0.6:
+        if rng.random() < 0.6 or ending in ("421-then-connect", "connect-over"):
             b.connect(login=(b"u", b"p"))
             for _ in range(rng.randrange(1, 3)):
                 add_transfer(b, rng, dist, kind=rng.choice(["D", "U", "F"]))
@@ -991,16 +1016,26 @@ def fam_dispatch(rng, n, dist):
             else:
                 add_transfer(b, rng, dist, kind=rng.choice(["D", "U", "F"]))
                 dist.add("dispatch:%s%s:%s" % (b.mode, "-rfc2428" if b.rfc else "", "ipv6" if ip6 else "ipv4"))
-        if rng.random() < 0.4:
-            # end the session (421 or QUIT) and carry on against ANOTHER address
-            if rng.random() < 0.5:
+        if rng.random() < 0.5:
+            # end the session (421, QUIT or not at all) and carry on against ANOTHER address
+            r2 = rng.random()
+            if r2 < 0.3:
                 b.simple(b"NOOP", None, 421)
                 b.disconnect(False)
-            else:
+            elif r2 < 0.55:
                 b.disconnect(True)
+            elif r2 < 0.75:
+                b.simple(b"NOOP", None, 421)          # closed by the library; connect again without disconnect()
+            else:
+                pass                                  # connect() over a live connection
+            if rng.random() < 0.5:
+                b.ip6 = not b.ip6                     # ... to a server of the other address family
+                if b.ip6 and b.mode == "P" and not b.rfc:
+                    b.rfc = True
+                    b.add_call(("Y", True))
             b.connect(login=(b"u", b"p"))
             add_transfer(b, rng, dist, kind=rng.choice(["D", "U", "F"]))
-            dist.add("dispatch:reconnect-other-address")
+            dist.add("dispatch:reconnect-other-address%s" % ("-no-disconnect" if r2 >= 0.55 else ""))
         if b.connected:
             b.disconnect(True)
         out.append(b.scenario())
